@@ -484,6 +484,215 @@ def n4(prog, rep):
 
 
 
+SOCKMAKERS = ("socket", "accept", "sock_connect_bind_nb", "sock_connect_nb", "sock_connect", "sock_connect_blocking", "sock_listener", "open", "dup")
+
+
+def owned_fd_rule(prog, rep):
+    """A request that creates its own descriptor (a field assigned from socket()/accept()/sock_connect_*()) does not release
+    itself while that descriptor may still be open and its own: on every path to free(C) the field is known to be -1, has been
+    closed, or has been handed to the caller's callback.  (Otherwise the descriptor leaks on that path -- or, with the test the
+    wrong way round, close(-1) is called and the open one is lost.)"""
+    n = 0
+    for up, (rec, _, _, _) in UNITS.items():
+        u = prog.unit(up)
+        owned = set()
+        for f in u.funcs:
+            if f.file != up:
+                continue
+            for e in f.all_elems():
+                if e.is_assign and e.op == "=" and e.kid(1) is not None:
+                    r = e.kid(1).strip()
+                    t = norm(e.kid(0))
+                    if r is not None and r.cls == "CallExpr" and r.callee in SOCKMAKERS and t[0] == "." and t[1][0] == "*" and t[1][1][0] == "v":
+                        owned.add(t[2])
+        if not owned:
+            continue
+        for f in u.funcs:
+            if f.file != up:
+                continue
+            V = lin.cookie_vars(f, rec)
+            if not V:
+                continue
+
+            def fdpath(t):
+                return t[0] == "." and t[2] in owned and t[1][0] == "*" and t[1][1][0] == "v" and t[1][1][2] in V
+
+            frees = [e for e in f.calls("free") if e.arg(0) is not None and norm(e.arg(0))[0] == "v" and norm(e.arg(0))[2] in V]
+            if not frees:
+                continue
+
+            def transfer(st, e):
+                if e.is_assign and fdpath(norm(e.kid(0))):
+                    return "safe" if (e.op == "=" and norm(e.kid(1)) == ("c", -1)) else "maybe"
+                if e.cls == "CallExpr":
+                    if e.callee == "close" and e.arg(0) is not None and fdpath(norm(e.arg(0))):
+                        return "safe"
+                    if e.callee is None and any(a is not None and fdpath(norm(a)) for a in e.args):
+                        return "safe"        # handed to the caller's callback
+                return st
+
+            def refine(st, cond, kind):
+                if kind not in (True, False):
+                    return st
+                for op, L, R, _, _ in cond_atoms(cond, kind):
+                    if fdpath(L) and R == ("c", -1):
+                        if op == "==":
+                            return "safe"
+                        if op == "!=":
+                            return "open" if st != "safe" else st
+                return st
+
+            def join(a, b):
+                return a if a == b else "maybe"
+
+            sol = Solver(f, "maybe", transfer, refine, join).run()
+            bad = {}
+
+            def visit(e, st):
+                if e in frees and st != "safe":
+                    bad[e.pos] = st
+            sol.visit(visit)
+            for e in frees:
+                n += 1
+                rep.check(e.pos not in bad, "N4", "%s: the request's own descriptor is closed, handed over or absent when the request is released" % f.name, e.where,
+                          "a path reaches this free() with C->%s %s: the descriptor the request created is neither closed nor given to the caller" % (
+                              sorted(owned)[0], "open" if bad.get(e.pos) == "open" else "possibly open"), function=f.name, construct="owned-fd")
+    return n
+
+
+SO_ERROR = 4
+
+
+def _callees_from(f, start):
+    """names of the functions called (directly) in blocks reachable from block `start`"""
+    seen, work, out = set(), [start], set()
+    while work:
+        nb = work.pop()
+        if nb is None or nb in seen:
+            continue
+        seen.add(nb)
+        for e in f.blocks[nb].elems:
+            if e.cls == "CallExpr" and e.callee:
+                out.add(e.callee)
+        work.extend(f.blocks[nb].succs)
+    return out
+
+
+def connect_routing_rule(prog, rep):
+    """network_connect tries the addresses in order and completes with the first socket that connected:
+    (a) the address handed to the socket-creating call has been tested non-NULL, the completion with -1 is scheduled only once the
+        cursor stands on the terminating NULL, and the wait for the connection is registered only with an address in hand;
+    (b) when the socket becomes writable, SO_ERROR decides: non-zero goes to the next address, zero completes with this socket;
+    (c) a per-address timeout is armed exactly when the caller gave one: the flag that guards the timer is set under
+        timeo != NULL and cleared under timeo == NULL."""
+    up = "network/network_connect.c"
+    u = prog.unit(up)
+    rec = UNITS[up][0]
+    T = mk = None
+    for f in u.funcs:
+        if f.file != up:
+            continue
+        for e in f.all_elems():
+            if e.is_assign and e.op == "=" and e.kid(1) is not None and e.kid(1).strip() is not None and e.kid(1).strip().cls == "CallExpr" and e.kid(1).strip().callee in SOCKMAKERS:
+                T, mk = f, e.kid(1).strip()
+    if T is None:
+        rep.defer_broken("N4: no socket-creating call found in network_connect.c")
+        return 0
+    n = 0
+    addr = norm(mk.arg(0)) if mk.arg(0) is not None else None
+
+    def d0(t):
+        """p[0] and *p are one term"""
+        if isinstance(t, tuple):
+            t = tuple(d0(x) for x in t)
+            if len(t) == 3 and t[0] == "[]" and t[2] == ("c", 0):
+                return ("*", t[1])
+        return t
+    addr = d0(addr)
+
+    def guards(f, e):
+        return [(op, d0(L), R) for cond, truth in f.edge_conds(e) for op, L, R, _, _ in cond_atoms(cond, truth)]
+
+    # (a)
+    g = guards(T, mk)
+    n += 1
+    rep.check(any(op == "!=" and L == addr and R == ("c", 0) for op, L, R in g), "N4", "%s: the address given to %s() is the one just tested non-NULL" % (T.name, mk.callee), mk.where,
+              "no dominating test `%s != NULL`: the loop tests another element than the one it uses, so the terminating NULL is passed to the "
+              "socket call or the last address is never tried" % show(addr), function=T.name, construct="addr-tested")
+    imm = [c for c in T.calls("events_immediate_register")]
+    net = [c for c in T.calls("events_network_register")]
+    for c in imm:
+        n += 1
+        rep.check(any(op == "==" and L == addr and R == ("c", 0) for op, L, R in guards(T, c)), "N4", "%s: completion with -1 only when the list is exhausted" % T.name, c.where,
+                  "the immediate completion is not guarded by `%s == NULL`" % show(addr), function=T.name, construct="exhaust-guard")
+    for c in net:
+        n += 1
+        rep.check(any(op == "!=" and L == addr and R == ("c", 0) for op, L, R in guards(T, c)), "N4", "%s: the wait is registered only with an address in hand" % T.name, c.where,
+                  "the registration is not guarded by `%s != NULL`" % show(addr), function=T.name, construct="wait-guard")
+    # (b)
+    H = None
+    for c in net:
+        a0 = norm(c.arg(0)) if c.arg(0) is not None else None
+        if a0 is not None and a0[0] == "fn":
+            H = u.func(a0[1])
+    completes = set(f.name for f in u.funcs if f.file == up and any(e.cls == "CallExpr" and e.callee is None for e in f.all_elems()))
+    nexts = set(f.name for f in u.funcs if f.file == up and f is not T and any(True for _ in f.calls(T.name)) and any(e.is_incdec for e in f.all_elems()))
+    if H is None or not completes or not nexts:
+        rep.defer_broken("N4: the connection handler, the completion or the next-address step was not found in network_connect.c")
+        return n
+    gs = [c for c in H.calls("getsockopt") if c.arg(2) is not None and norm(c.arg(2)) == ("c", SO_ERROR)]
+    if len(gs) != 1 or gs[0].arg(3) is None or norm(gs[0].arg(3))[0] != "&":
+        rep.bad("N4", "%s reads SO_ERROR" % H.name, H.loc, "the outcome of the connection attempt must be read with getsockopt(SO_ERROR)", function=H.name, construct="so-error")
+        return n + 1
+    ev = norm(gs[0].arg(3))[1]
+    routed = 0
+    for b in H.blocks.values():
+        if b.cond is None or len(b.succs) != 2:
+            continue
+        for truth, succ in ((True, b.succs[0]), (False, b.succs[1])):
+            for op, L, R, _, _ in cond_atoms(b.cond, truth):
+                if L == ev and R == ("c", 0) and op in (">", "<="):
+                    op = "!=" if op == ">" else "=="      # pending socket errors are positive errno values
+                if L == ev and R == ("c", 0) and op in ("==", "!="):
+                    routed += 1
+                    cs = _callees_from(H, succ)
+                    n += 1
+                    if op == "!=":
+                        ok = bool(cs & nexts) and not (cs & completes)
+                        msg = "with SO_ERROR != 0 the attempt failed: the handler must go on to the next address (%s), not complete with this socket" % "/".join(sorted(nexts))
+                    else:
+                        ok = bool(cs & completes) and not (cs & nexts)
+                        msg = "with SO_ERROR == 0 the socket is connected: the handler must complete with it (%s), not drop it and try the next address" % "/".join(sorted(completes))
+                    rep.check(ok, "N4", "%s: SO_ERROR %s 0 is routed to %s" % (H.name, op, "the next address" if op == "!=" else "the completion"), b.cond.where,
+                              msg + "; calls reachable on this edge: %s" % sorted(cs), function=H.name, construct="so-error-route")
+    if routed < 2:
+        rep.bad("N4", "%s branches on SO_ERROR" % H.name, H.loc, "no test of the value read with SO_ERROR against 0 found", function=H.name, construct="so-error-route")
+        n += 1
+    # (c)
+    tm = [c for c in T.calls("events_timer_register")]
+    ctor = u.func(UNITS[up][2])
+    tparam = [q for q in (ctor.params if ctor else []) if "timeval" in q["ty"]]
+    for c in tm:
+        flags = [L for op, L, R in guards(T, c) if op == "!=" and R == ("c", 0) and L[0] == "." and L[1][0] == "*"]
+        if not flags or not tparam:
+            continue
+        fld = flags[0][2]
+        P = ("v", tparam[0]["name"], tparam[0]["id"])
+        for e in ctor.all_elems():
+            if e.is_assign and e.op == "=" and norm(e.kid(0))[0] == "." and norm(e.kid(0))[2] == fld:
+                gg = guards(ctor, e)
+                given = any(op == "!=" and L == P and R == ("c", 0) for op, L, R in gg)
+                absent = any(op == "==" and L == P and R == ("c", 0) for op, L, R in gg)
+                v = norm(e.kid(1))
+                n += 1
+                ok = (given and v[0] == "c" and v[1] != 0) or (absent and v == ("c", 0)) or (not given and not absent and v[0] != "c")
+                rep.check(ok, "N4", "%s: the timeout flag follows the caller's timeo" % ctor.name, e.where,
+                          "`%s` under %s: the timer in %s is armed exactly when this field is non-zero, so a caller's timeout would be %s" % (
+                              e.text[:40], "timeo != NULL" if given else ("timeo == NULL" if absent else "no test of timeo"), T.name,
+                              "ignored" if given else "read from an unset field"), function=ctor.name, construct="timeo-flag")
+    return n
+
+
 def closed_fd_rule(prog, rep):
     """A descriptor that has been closed does not stay in the request: after close(C->s) the field is overwritten (with -1
     or the next socket) on every path before the function returns, unless the request itself is released.  The completion
@@ -918,6 +1127,10 @@ def run(tier):
                 n6_relational(prog, rep, up, L)
         n1(prog, rep)
         n4(prog, rep)
+        if connect_routing_rule(prog, rep) < 7:
+            rep.defer_broken("N4: fewer than 7 routing obligations found in network_connect.c")
+        if owned_fd_rule(prog, rep) < 4:
+            rep.defer_broken("N4: fewer than 4 releases of a request that owns a descriptor found")
         if closed_fd_rule(prog, rep) < 1:
             rep.defer_broken("N4: no close() of a descriptor kept in a request found")
         if borrow_ref_rule(prog, rep, list(UNITS)) < 4:
@@ -935,6 +1148,11 @@ def run(tier):
         # a failed registration leaves nothing registered (shared with C14): C06's requests register in events_network.c
         from . import c14
         c14.register_atomic_rule(ir.Program(["events/events_network.c"], cfg), rep)
+        # the request objects themselves: tested before use, released on every failure path, failure reported ("ends with exactly
+        # one callback ... or the call reports failure"): the rules of C14 on the four request units, acquirers discovered library-wide
+        wprog = ir.Program(None, cfg)
+        c14.leak_rules(wprog, rep, only_files=list(UNITS))
+        c14.reported_rule(wprog, rep, only_files=list(UNITS))
     n = len(configs)
     rep.require_min("LIN", 10 * n)
     rep.require_min("CANCELS", 8 * n)
